@@ -521,9 +521,19 @@ class NodeRunner:
                     serial = int(m.group(1))
         except Exception:  # noqa: BLE001
             serial = None
-        d = {"serial": serial, "id": getattr(p, "id", None), "to": getattr(p, "to", None), "data": data,
+        d = {"serial": serial, "id": getattr(p, "id", None), "to": getattr(p, "to", None), "data": copy.deepcopy(data) if isinstance(data, (list, dict)) else data,
              "seq": self.hist.tick(), "type": type(p).__name__}
         self.inc["deliveries"].append(d)
+        # the consumer owns what it received and works on it in place (pops jobs, adds flags): no other reader, and no
+        # later delivery, may see that
+        try:
+            if isinstance(data, list):
+                data.append("consumed")
+            elif isinstance(data, dict):
+                data["consumed"] = True
+            p.to = "consumed"
+        except Exception:  # noqa: BLE001
+            pass
         self.sim.log("deliver", self.node["name"], self.inc["idx"], serial, str(d["id"]))
 
     # operations
